@@ -504,11 +504,6 @@ class ModelSide:
         if bool(fail) != (r.rc != 0):
             diffs.append('exit status: model fail=%d real rc=%d' % (fail, r.rc))
         sm = r.summary()
-        if self.st['blockmax'] == 0:
-            # state_check skips everything (no summary is printed) when there is no block at all
-            if 'error' in sm:
-                diffs.append('a summary is printed although blockmax is 0')
-            return diffs
         if int(sm.get('error', -1)) != err:
             diffs.append('summary:error model %d real %s' % (err, sm.get('error')))
         if cmd == 'fix' and int(sm.get('error_recovered', -1)) != rec:
